@@ -78,7 +78,10 @@ thread_local uint64_t tl_accesses = 0;
 thread_local uint64_t tl_func_count = 0;
 thread_local uint64_t tl_func_next = 0;
 thread_local uint64_t tl_func_rng = 0;
+thread_local uint64_t tl_acc_next = 0;
+thread_local uint64_t tl_acc_rng = 0;
 uint64_t g_func_interval = 0, g_func_seed = 0;
+uint64_t g_acc_interval = 0;
 
 void InitStaticRange() {
   if (g_span) return;
@@ -180,7 +183,16 @@ void RecordAccess(int t, uintptr_t addr, size_t size, bool is_write, uintptr_t p
 inline void OnAccess(const void *p, size_t size, bool is_write, uintptr_t pc) {
   ++tl_accesses;
   const uintptr_t a = reinterpret_cast<uintptr_t>(p);
-  if (a - g_lo >= g_span) return;
+  if (a - g_lo >= g_span) {
+    // Not static memory: never a race candidate, but (sampled, per plan) a
+    // preemption point, so that a task can be held in the middle of a loop
+    // that makes no call and touches no shared object.
+    if (tl_acc_next && tl_accesses >= tl_acc_next) {
+      tl_acc_next = tl_accesses + 1 + splitmix64(&tl_acc_rng) % (2 * g_acc_interval);
+      if (g_logging && g_yield && g_task && g_task() >= 0) g_yield(Y_FUNC);
+    }
+    return;
+  }
   if (!g_logging || !g_task) return;
   const int t = g_task();
   if (t < 0) return;
@@ -247,6 +259,8 @@ void TsanTaskStart(int task) {
   tl_func_count = 0;
   tl_func_rng = mix64(g_func_seed, static_cast<uint64_t>(task) + 1);
   tl_func_next = g_func_interval ? 1 + splitmix64(&tl_func_rng) % (2 * g_func_interval) : 0;
+  tl_acc_rng = mix64(g_func_seed ^ 0xacce55, static_cast<uint64_t>(task) + 1);
+  tl_acc_next = g_acc_interval ? 1 + splitmix64(&tl_acc_rng) % (2 * g_acc_interval) : 0;
 }
 
 uint64_t TsanThreadAccesses() { return tl_accesses; }
@@ -257,6 +271,7 @@ void TsanSetFuncSampling(uint64_t mean_interval, uint64_t seed) {
   g_func_interval = mean_interval;
   g_func_seed = seed;
 }
+void TsanSetAccessSampling(uint64_t mean_interval) { g_acc_interval = mean_interval; }
 
 bool TsanIsStatic(uintptr_t addr) {
   InitStaticRange();
